@@ -235,6 +235,9 @@ func c20Tries(c *fw.Ctx, round int) {
 				k := fmt.Sprintf("w%d/k%d", w, i)
 				ts.Insert([]byte(k), []byte(k))
 				ss.Upsert([]byte(k), func([]byte) []byte { return []byte(k) })
+				// every writer also adds one mark to the value of ONE shared filter (read-modify-write in the
+				// callback, as the subscription index does when several sessions hold one filter)
+				ss.Upsert([]byte("hot/filter"), func(old []byte) []byte { return append(append([]byte{}, old...), byte('a'+w)) })
 				if i%3 == 0 {
 					ts.Remove([]byte(k))
 					ss.Upsert([]byte(k), func([]byte) []byte { return nil })
@@ -273,6 +276,11 @@ func c20Tries(c *fw.Ctx, round int) {
 	seedExtra := 0
 	if round%2 == 1 {
 		seedExtra = 401
+	}
+	hot := 0
+	ss.Walk([]byte("hot/filter"), func(b []byte) { hot += len(b) })
+	if hot != nW*per {
+		c.Violation("trie-lost-update:same-key", fmt.Sprintf("tries round %d: %d writers each added %d marks to the value of one filter through Upsert's read-modify-write callback; the value holds %d marks, want %d", round, nW, per, hot, nW*per), map[string]interface{}{"round": round, "marks": hot})
 	}
 	c.Observe("trie_keys_written", nW*per)
 	c.Case(fmt.Sprintf("tries|%d", round), true)
